@@ -48,7 +48,7 @@ def check_filter_selector(model: Model, report: Report, rule: str, nondet: bool 
                     exc = interp.instantiate(model.cls("exceptions.JSONPathTypeError"), [Const("boom")], {}, None)
                     raise AbsRaise(exc, None)
 
-                expr = it.new_inst(model.cls("filter_expressions.Expression"), "filter-expression")
+                expr = it.harness_inst(model.cls("filter_expressions.Expression"), "filter-expression")
                 expr.attrs["token"] = it.new_opaque("expr.token")
                 it.stubs[(expr.id, "evaluate")] = evaluate
                 sel.attrs["expression"] = expr
